@@ -1115,3 +1115,69 @@ def c09_topup(env):
 
 
 REGISTRY.setdefault("C09", []).append(c09_topup)
+
+
+# ======================================================================================
+# C12: the connection engine must surface the error of the peer's close
+# ======================================================================================
+
+
+def c12_engine_close(env):
+    o = Obligation("c12_engine_close_error_surfaces", "C12")
+    o.desc = "ConnectionEngine::on_incoming, Close arm: whatever Connection::on_incoming_close reports (peer closed first / peer's close carried an error) is never swallowed -- the engine step cannot complete Ok when the state function returned Err; and a peer-initiated close (state CLOSE_RCVD) is answered with exactly one close"
+    fn = env.fn(r"^connection::engine::<impl at [^>]*>::on_incoming::\{closure#0\}$")
+    o.functions = [fn.name]
+    o.bounds = ["coroutine body from its initial state with a Close frame, every await completing, failing or pending; flush loop unrolled 3 times; all connection states"]
+    o.assumes = ["Connection::on_incoming_close / local_state are the functions decided by c12_on_incoming_close (Kani); here their results are arbitrary"]
+    ex = env.executor(max_visits=3)
+    E = env.enums["FrameBody"]
+    CS = env.enums["ConnectionState"]
+    frame = mir.Agg("frame")
+    body = mir.Agg("body")
+    body["#d"] = z3.BitVecVal(E["Close"], 64)
+    frame[env.fidx("Frame", "body")] = body
+    r_d = z3.BitVec("on_incoming_close.result", 64)
+    state_d = z3.BitVec("connection.local_state", 64)
+
+    def close_model(ex_, st, callee, args, argvals, dty):
+        r = mir.Agg("Result")
+        r["#d"] = r_d
+        return r
+
+    def state_model(ex_, st, callee, args, argvals, dty):
+        stt = st.locals.setdefault("@connstate", mir.Agg("ConnectionState"))
+        # the state may change across awaits (send_close): fresh value per read, except the first
+        # read right after on_incoming_close, which is `state_d`
+        if "#d" not in stt:
+            stt["#d"] = state_d
+        return mir.Ref(("@connstate",), False)
+
+    ex.models = [(r"Connection>::on_incoming_close$", close_model), (r"Connection>::local_state$", state_model)]
+    pin, cor = coroutine_start(env, "@engine", {1: frame})
+    paths = ex.run(fn, {"_1": pin, "@cor": cor, "@engine": mir.Agg("engine")})
+    hyp = ex.assumptions + [z3.ULE(r_d, 1), state_valid(env, state_d, "ConnectionState")]
+    n = 0
+    for i, p in enumerate(paths):
+        if p.end != "return":
+            continue
+        ready, ok = poll_ready_result(p.ret)
+        if ok is None:
+            continue
+        n += 1
+
+        def replay(m):
+            err = model_value(m, r_d) == 1
+            # natively: the peer answers our close with a close that carries an error -> the handle must report it
+            return "peer_close 1 1", (lambda js: js.get("panic") or js["close_result"] != "remote_closed_with_error")
+
+        o.prove(f"path{i}:close-error-not-swallowed", hyp + p.cond + [ready, ok], r_d == 0, replay=replay)
+        closes = count_calls(p, r"Connection>::send_close$")
+        if z3.is_true(z3.simplify(z3.And(ready, ok))) or True:
+            o.prove(f"path{i}:answer-only-when-close-received", hyp + p.cond, z3.BoolVal(closes <= 1))
+            if closes:
+                o.prove(f"path{i}:answered-in-close-rcvd", hyp + p.cond, state_d == CS["CloseReceived"])
+    o.cover("paths through the close arm", [z3.BoolVal(n > 0)])
+    return [o]
+
+
+REGISTRY["C12"].append(c12_engine_close)
